@@ -85,13 +85,68 @@ type boundedResult struct {
 // unitsFor builds the verification units of a property: every non-trusted function contract and every
 // lemma tagged with it.
 func unitsFor(P *Program, C *Contracts, prop string) (units []*Unit, trusted []string) {
+	// the functions tagged with the property, plus every function under contract that they reach through static
+	// calls (directly or through uncontracted module functions): a helper the property leans on is part of its check
+	// whether or not its contract happens to carry the property's tag
+	inSet := map[*FuncContract]bool{}
+	var order []*FuncContract
 	for _, fc := range C.Order {
-		if !hasProp(fc.Props, prop) {
-			continue
+		if hasProp(fc.Props, prop) && !fc.Trusted {
+			inSet[fc] = true
+			order = append(order, fc)
 		}
-		if fc.Trusted {
-			continue
+	}
+	if os.Getenv("VERIF_NO_CLOSURE") == "" {
+		contractOf := func(fn *ssa.Function) *FuncContract {
+			key := funcKey(fn)
+			if c := C.Funcs[key]; c != nil {
+				return c
+			}
+			if strings.Contains(key, "[") {
+				return C.Funcs[stripBrackets(key)]
+			}
+			return nil
 		}
+		seen := map[*ssa.Function]bool{}
+		var queue []*ssa.Function
+		for _, fc := range order {
+			if fn := P.Funcs[fc.Key]; fn != nil {
+				queue = append(queue, fn)
+				seen[fn] = true
+			}
+		}
+		for len(queue) > 0 {
+			fn := queue[0]
+			queue = queue[1:]
+			var callees []*ssa.Function
+			for _, b := range fn.Blocks {
+				for _, ins := range b.Instrs {
+					if ci, ok := ins.(ssa.CallInstruction); ok {
+						if c := ci.Common().StaticCallee(); c != nil {
+							callees = append(callees, c)
+						}
+					}
+					if mc, ok := ins.(*ssa.MakeClosure); ok {
+						if c, ok := mc.Fn.(*ssa.Function); ok {
+							callees = append(callees, c)
+						}
+					}
+				}
+			}
+			for _, c := range callees {
+				if seen[c] || !inModule(c) || c.Blocks == nil {
+					continue
+				}
+				seen[c] = true
+				queue = append(queue, c)
+				if fc := contractOf(c); fc != nil && !fc.Trusted && !inSet[fc] && len(fc.Props) > 0 {
+					inSet[fc] = true
+					order = append(order, fc)
+				}
+			}
+		}
+	}
+	for _, fc := range order {
 		units = append(units, verifyFunc(P, C, fc))
 	}
 	for _, l := range C.Lemmas {
